@@ -207,6 +207,10 @@ func c16hsSession(args []string, _ []byte) string {
 func init() { workerHandlers["c16hs"] = c16hsSession }
 
 func c16Handshake(rt *rapid.T) {
+	if !everyNth("c16Handshake", 1, 4) {
+		return
+	}
+	defer noteFailure()
 	rec := stats.For("C16")
 	spec := c16hsSpec{Version: int(rapid.SampledFrom(allVersions).Draw(rt, "version")), Side: rapid.SampledFrom([]string{"server", "client"}).Draw(rt, "side"),
 		Auth: rapid.Bool().Draw(rt, "auth"), Progress: rapid.IntRange(0, 2).Draw(rt, "progress")}
